@@ -16,6 +16,7 @@ func init() { Sched["c16"] = c16 }
 
 // c16: nothing runs on a connection whose authentication exchange has not completed successfully.
 func c16(p Params) func() {
+	proto := p.Get("proto", "raw")
 	return func() {
 		begin()
 		var trace []string
@@ -52,20 +53,27 @@ func c16(p Params) func() {
 		srv.SetUnknownCall(func(ctx erpc.UnknownCallCtx) (interface{}, *erpc.Status) { handled++; return "u", nil })
 		srv.SetUnknownPush(func(ctx erpc.UnknownPushCtx) *erpc.Status { handled++; return nil })
 
+		enc := func(f world.Frame) []byte {
+			b, ok := world.EncodeFrame(proto, f)
+			if !ok {
+				vsched.Failf("harness: %s cannot carry %s", proto, f.String())
+			}
+			return b
+		}
 		authGood := world.Frame{Seq: 1, Mtype: erpc.TypeAuthCall, Codec: 'j', Body: []byte(`"good"`)}
 		firsts := []struct {
 			name  string
 			bytes []byte
 		}{
-			{"auth_good", authGood.Bytes()},
-			{"auth_bad", world.Frame{Seq: 1, Mtype: erpc.TypeAuthCall, Codec: 'j', Body: []byte(`"evil"`)}.Bytes()},
-			{"auth_status", world.Frame{Seq: 1, Mtype: erpc.TypeAuthCall, Status: "code=500&msg=x", Codec: 'j', Body: []byte(`"good"`)}.Bytes()},
-			{"auth_undecodable", world.Frame{Seq: 1, Mtype: erpc.TypeAuthCall, Codec: 'j', Body: []byte(`{{{`)}.Bytes()},
-			{"call", world.Frame{Seq: 1, Mtype: erpc.TypeCall, Method: hc, Codec: 'j', Body: []byte(`"good"`)}.Bytes()},
-			{"push", world.Frame{Seq: 1, Mtype: erpc.TypePush, Method: hp, Codec: 'j', Body: []byte(`"good"`)}.Bytes()},
-			{"reply", world.Frame{Seq: 1, Mtype: erpc.TypeReply, Codec: 'j', Body: []byte(`"good"`)}.Bytes()},
-			{"auth_reply", world.Frame{Seq: 1, Mtype: erpc.TypeAuthReply, Codec: 'j', Body: []byte(`"good"`)}.Bytes()},
-			{"type9", world.Frame{Seq: 1, Mtype: 9, Codec: 'j', Body: []byte(`"good"`)}.Bytes()},
+			{"auth_good", enc(authGood)},
+			{"auth_bad", enc(world.Frame{Seq: 1, Mtype: erpc.TypeAuthCall, Codec: 'j', Body: []byte(`"evil"`)})},
+			{"auth_status", enc(world.Frame{Seq: 1, Mtype: erpc.TypeAuthCall, Status: "code=500&msg=x", Codec: 'j', Body: []byte(`"good"`)})},
+			{"auth_undecodable", enc(world.Frame{Seq: 1, Mtype: erpc.TypeAuthCall, Codec: 'j', Body: []byte(`{{{`)})},
+			{"call", enc(world.Frame{Seq: 1, Mtype: erpc.TypeCall, Method: hc, Codec: 'j', Body: []byte(`"good"`)})},
+			{"push", enc(world.Frame{Seq: 1, Mtype: erpc.TypePush, Method: hp, Codec: 'j', Body: []byte(`"good"`)})},
+			{"reply", enc(world.Frame{Seq: 1, Mtype: erpc.TypeReply, Codec: 'j', Body: []byte(`"good"`)})},
+			{"auth_reply", enc(world.Frame{Seq: 1, Mtype: erpc.TypeAuthReply, Codec: 'j', Body: []byte(`"good"`)})},
+			{"type9", enc(world.Frame{Seq: 1, Mtype: 9, Codec: 'j', Body: []byte(`"good"`)})},
 			{"garbage", []byte("GET / HTTP/1.1\r\n\r\n")},
 			{"prefix", nil},
 			{"nothing", nil},
@@ -73,7 +81,7 @@ func c16(p Params) func() {
 		fi := vsched.Choose(len(firsts), "first")
 		first := firsts[fi]
 		if first.name == "prefix" {
-			full := authGood.Bytes()
+			full := enc(authGood)
 			k := 1 + vsched.Choose(len(full)-1, "prefixlen")
 			first.bytes = full[:k]
 			first.name = fmt.Sprintf("prefix%d", k)
@@ -97,7 +105,7 @@ func c16(p Params) func() {
 			ctxt += " path=listener"
 			const addr = "10.0.0.2:9000"
 			lis := vnet.Listen(addr)
-			vsched.Spawn("acceptloop", func() { erpc.VerifServeListener(srv, lis) })
+			vsched.Spawn("acceptloop", func() { erpc.VerifServeListener(srv, lis, world.Proto(proto)) })
 			c, err := (&vnet.Dialer{}).Dial("tcp", addr)
 			if err != nil {
 				vsched.Failf("harness: dial: %v", err)
@@ -107,13 +115,13 @@ func c16(p Params) func() {
 			acceptor = world.Go("acceptor", func() {})
 		} else {
 			raw, sc = vnet.Pipe(vnet.NewAddr(), vnet.NewAddr())
-			acceptor = world.Go("acceptor", func() { sess, accStat = srv.ServeConn(sc) })
+			acceptor = world.Go("acceptor", func() { sess, accStat = srv.ServeConn(sc, world.Proto(proto)) })
 		}
 		app := func(i int) []byte {
 			if i == 0 {
-				return world.Frame{Seq: 10, Mtype: erpc.TypeCall, Method: hc, Codec: 'j', Body: []byte(`"a"`)}.Bytes()
+				return enc(world.Frame{Seq: 10, Mtype: erpc.TypeCall, Method: hc, Codec: 'j', Body: []byte(`"a"`)})
 			}
-			return world.Frame{Seq: 11, Mtype: erpc.TypePush, Method: hp, Codec: 'j', Body: []byte(`"b"`)}.Bytes()
+			return enc(world.Frame{Seq: 11, Mtype: erpc.TypePush, Method: hp, Codec: 'j', Body: []byte(`"b"`)})
 		}
 		client := world.Go("client", func() {
 			if len(first.bytes) > 0 {
@@ -129,7 +137,7 @@ func c16(p Params) func() {
 				return
 			}
 			// read the verdict (if any)
-			world.ReadFrame(raw)
+			world.ReadFrameOf(raw, proto)
 			if when == 1 {
 				for i := 0; i < npipe; i++ {
 					raw.Write(app(i))
@@ -160,7 +168,7 @@ func c16(p Params) func() {
 				perMsgHooks++
 			}
 		}
-		out, _, _ := world.ParseFrames(raw.Peer().Written)
+		out, _, _ := world.DecodeFrames(proto, raw.Peer().Written)
 		authReplies := 0
 		for _, f := range out {
 			if f.Mtype == erpc.TypeAuthReply {
